@@ -119,6 +119,10 @@ def with_var(document, def_index, vardef):
 
 
 # ---- the catalogue -----------------------------------------------------------------------------------------------------------
+def first_fields(o):
+    return [x for x in o.sel if isinstance(x, Field)]
+
+
 def inject(schema, document):
     D = document
     ops = D.operations
@@ -161,6 +165,14 @@ def inject(schema, document):
                 fn = rewrite.fresh(D, "SF")
                 variants.append(("fragment", replace(o, sel=o.sel + (Spread(fn),)), (Fragment(fn, root, (), (nf,)),)))
                 variants.append(("fragment-only", replace(o, sel=(Spread(fn),)), (Fragment(fn, root, (), o.sel + (nf,)),)))
+                variants.append(("fragment-only-inline-inside", replace(o, sel=(Spread(fn),)),
+                                 (Fragment(fn, root, (), (Inline(None, (), o.sel + (nf,)),)),)))
+                fn2 = fn + "b"
+                variants.append(("fragment-only-two-levels", replace(o, sel=(Spread(fn),)),
+                                 (Fragment(fn, root, (), o.sel + (Spread(fn2),)), Fragment(fn2, root, (), (nf,)))))
+                if first_fields(o):
+                    variants.append(("fragment-only-aliased-twin", replace(o, sel=(Spread(fn),)),
+                                     (Fragment(fn, root, (), o.sel + (replace(first_fields(o)[0], alias="twin"),)),)))
             variants.append(("typename", replace(o, sel=o.sel + (Field("__typename"),)), ()))
             first = [s for s in o.sel if isinstance(s, Field)]
             if first:
@@ -373,6 +385,12 @@ def inject(schema, document):
                         d3 = with_var(d3, defidx, VarDef(vn, vt, IntV("1") if vt == "Int" else StrV("d")))
                         if d3 is not None:
                             yield "5.8.5", vsite + "|" + vt + "-with-default", d3
+                    if not vt.endswith("!"):
+                        # an explicit `= null` default is not a default that makes a nullable variable fit a non-null position
+                        d4 = rebuild(args[:ai] + (replace(a, value=value_replace(a.value, vpath, Var(vn))),) + args[ai + 1:])
+                        d4 = with_var(d4, defidx, VarDef(vn, vt, NullV()))
+                        if d4 is not None:
+                            yield "5.8.5", vsite + "|" + vt + "-with-null-default", d4
     # variable defaults of the wrong type (5.6.1 at site variable-default) and duplicated input fields there
     for di, o in enumerate(D.defs):
         if isinstance(o, Operation):
